@@ -30,6 +30,7 @@ def _item():
         "sexit": st.sampled_from([False, True]),
         "xraise": st.sampled_from([False] * 11 + [True]),
         "falsy": st.sampled_from([False] * 5 + [True]),
+        "exitname": st.sampled_from([None] * 6 + ["Alias", "Deco"]),
     })
 
 
@@ -278,7 +279,12 @@ def table_programs():
 
         def item(m, a=None):
             a = is_async if a is None else a
-            return {"m": m, "target": "name", "swallow": swallow, "senter": False, "sexit": a, "xraise": False}
+            # every third table program uses an aliased / decorated exit method for its innermost manager
+            en = None
+            if m == 2 or shape == "single":
+                en = [None, "Alias", "Deco"][(len(out)) % 3]
+            return {"m": m, "target": "name", "swallow": swallow, "senter": False, "sexit": a, "xraise": False,
+                    "exitname": en}
 
         body = _end_stmts(end, susp)
         if shape == "single":
